@@ -17,6 +17,8 @@ type FuncResult struct {
 	Obls    []*Obligation
 	Unsup   string // non-empty when the function left the supported subset
 	Trusted bool
+	Exec    *Exec
+	Final   *State
 }
 
 func (x *Exec) specEnv(st *State) *SpecEnv {
@@ -122,6 +124,7 @@ func VerifyFunc(ld *Loader, pkg *Pkg, key string) (res *FuncResult) {
 		x.noOv[n] = true
 	}
 	x.fnObj = pkg.Info.Defs[fd.Name].(*types.Func)
+	res.Exec = x
 	defer func() {
 		if r := recover(); r != nil {
 			var msg string
@@ -144,6 +147,7 @@ func VerifyFunc(ld *Loader, pkg *Pkg, key string) (res *FuncResult) {
 	}()
 	x.run()
 	res.Obls = vc.obls
+	res.Final = x.final
 	return res
 }
 
@@ -226,6 +230,7 @@ func (x *Exec) run() {
 		return
 	}
 	exitPC := final.pc
+	x.final = final.clone()
 	post := x.postEnv(final)
 	for i, e := range x.ct.Ensures {
 		parts := splitConj(e.Expr)
